@@ -432,3 +432,5 @@ func Request(method, target string, form url.Values, basicUser, basicPass string
 	}
 	return r
 }
+
+func Debugf(format string, args ...any) { res.Notes = append(res.Notes, fmt.Sprintf(format, args...)) }
